@@ -422,6 +422,9 @@ func (a *analysis) apply(st *State, p *Path, c Ctrl, cls int, via string) (Ctrl,
 			jump = true
 		case ELibLen:
 			libLen = true
+			if nc.Cons < 1 {
+				a.finding("S1d", st, p, "the library length helper computes Len()-1 on the whole file as an unsigned value; it is reachable before any byte was consumed, i.e. possibly on an empty file", c, via)
+			}
 		case EEvent:
 			events++
 			if int(nc.Cons) < e.Off {
